@@ -641,6 +641,10 @@ def _shape_local(fn, l, depth, seen):
                         extra = ['"%s"' % m.group(1)]
                 nm = short_name(names[-1] if names else "indirect")
                 if _RESTRICT[0] is not None and names:
+                    mnum = re.match(r"core::num::<impl (\w+)>::(\w+)$", names[-1])
+                    if mnum:
+                        nm = "num_%s::%s" % (mnum.group(1), mnum.group(2))  # path mode: keep the integer type of inherent integer methods
+                if _RESTRICT[0] is not None and names:
                     _CALLEES.setdefault((fn.id, nm, len(n["args"])), set()).add(names[-1])
                 if _RESTRICT[0] is not None and names and "{closure" in names[-1]:
                     nm = "Fn::call"  # a direct call of a closure value: callee identity is in its first argument
